@@ -14,6 +14,7 @@ import (
 	"gonum.org/v1/gonum/blas"
 	"gonum.org/v1/gonum/blas/blas64"
 	"gonum.org/v1/gonum/internal/verif/vlib"
+	"gonum.org/v1/gonum/lapack/lapack64"
 	"gonum.org/v1/gonum/mat"
 )
 
@@ -333,6 +334,42 @@ func (w rawBand) Bandwidth() (int, int) { return w.b.Bandwidth() }
 func (w rawBand) TBand() mat.Banded     { return mat.TransposeBand{Banded: w} }
 func (w rawBand) RawBand() blas64.Band  { return w.b.RawBand() }
 
+// rawSymBand offers RawSymBand (upper storage).
+type rawSymBand struct{ s *mat.SymBandDense }
+
+func (w rawSymBand) Dims() (int, int)                 { return w.s.Dims() }
+func (w rawSymBand) At(i, j int) float64              { return w.s.At(i, j) }
+func (w rawSymBand) T() mat.Matrix                    { return w }
+func (w rawSymBand) SymmetricDim() int                { return w.s.SymmetricDim() }
+func (w rawSymBand) Bandwidth() (int, int)            { return w.s.Bandwidth() }
+func (w rawSymBand) TBand() mat.Banded                { return w }
+func (w rawSymBand) SymBand() (int, int)              { return w.s.SymBand() }
+func (w rawSymBand) RawSymBand() blas64.SymmetricBand { return w.s.RawSymBand() }
+
+// rawTriBand offers RawTriBand (non-unit).
+type rawTriBand struct{ t *mat.TriBandDense }
+
+func (w rawTriBand) Dims() (int, int)                  { return w.t.Dims() }
+func (w rawTriBand) At(i, j int) float64               { return w.t.At(i, j) }
+func (w rawTriBand) T() mat.Matrix                     { return mat.Transpose{Matrix: w} }
+func (w rawTriBand) Triangle() (int, mat.TriKind)      { return w.t.Triangle() }
+func (w rawTriBand) TTri() mat.Triangular              { return mat.TransposeTri{Triangular: w} }
+func (w rawTriBand) Bandwidth() (int, int)             { return w.t.Bandwidth() }
+func (w rawTriBand) TBand() mat.Banded                 { return mat.TransposeBand{Banded: w} }
+func (w rawTriBand) TriBand() (int, int, mat.TriKind)  { return w.t.TriBand() }
+func (w rawTriBand) TTriBand() mat.TriBanded           { return mat.TransposeTriBand{TriBanded: w} }
+func (w rawTriBand) RawTriBand() blas64.TriangularBand { return w.t.RawTriBand() }
+
+// rawTridiag offers RawTridiagonal.
+type rawTridiag struct{ a *mat.Tridiag }
+
+func (w rawTridiag) Dims() (int, int)                     { return w.a.Dims() }
+func (w rawTridiag) At(i, j int) float64                  { return w.a.At(i, j) }
+func (w rawTridiag) T() mat.Matrix                        { return mat.Transpose{Matrix: w} }
+func (w rawTridiag) Bandwidth() (int, int)                { return w.a.Bandwidth() }
+func (w rawTridiag) TBand() mat.Banded                    { return mat.TransposeBand{Banded: w} }
+func (w rawTridiag) RawTridiagonal() lapack64.Tridiagonal { return w.a.RawTridiagonal() }
+
 // ---- structures -----------------------------------------------------------
 
 func stFull(r, c int) *structure {
@@ -534,27 +571,56 @@ func buildBand(spec bandSpec, extraStride int, raw bool) func(M matrix) *operand
 	}
 }
 
-func buildSymBand(kf func(n int) int) func(M matrix) *operand {
+func buildSymBand(kf func(n int) int) func(M matrix) *operand { return buildSymBandX(kf, 0, false) }
+
+// buildSymBandX: extra > 0 gives band storage with Stride = k+1+extra (SetRawSymBand, a window of a wider band
+// buffer); raw wraps the matrix in a user type that only exposes RawSymBand.
+func buildSymBandX(kf func(n int) int, extra int, raw bool) func(M matrix) *operand {
 	return func(M matrix) *operand {
 		n := len(M)
 		k := kf(n)
-		back := poisoned(n * (k + 1))
-		s := mat.NewSymBandDense(n, k, back)
+		back := poisoned(n * (k + 1 + extra))
+		var s *mat.SymBandDense
+		if extra == 0 {
+			s = mat.NewSymBandDense(n, k, back)
+		} else {
+			s = &mat.SymBandDense{}
+			s.SetRawSymBand(blas64.SymmetricBand{N: n, K: k, Stride: k + 1 + extra, Uplo: blas.Upper, Data: back})
+		}
 		for i := 0; i < n; i++ {
 			for j := i; j < min(n, i+k+1); j++ {
 				s.SetSymBand(i, j, M[i][j])
 			}
 		}
-		return (&operand{m: s, val: M, bufs: [][]float64{back}}).seal()
+		var m mat.Matrix = s
+		if raw {
+			m = rawSymBand{s}
+		}
+		return (&operand{m: m, val: M, bufs: [][]float64{back}}).seal()
 	}
 }
 
 func buildTriBand(upper bool, kf func(n int) int) func(M matrix) *operand {
+	return buildTriBandX(upper, kf, 0, false)
+}
+
+// buildTriBandX: extra > 0 gives Stride = k+1+extra through SetRawTriBand; raw wraps in a user RawTriBand type.
+func buildTriBandX(upper bool, kf func(n int) int, extra int, raw bool) func(M matrix) *operand {
 	return func(M matrix) *operand {
 		n := len(M)
 		k := kf(n)
-		back := poisoned(n * (k + 1))
-		t := mat.NewTriBandDense(n, k, mat.TriKind(upper), back)
+		back := poisoned(n * (k + 1 + extra))
+		var t *mat.TriBandDense
+		if extra == 0 {
+			t = mat.NewTriBandDense(n, k, mat.TriKind(upper), back)
+		} else {
+			uplo := blas.Lower
+			if upper {
+				uplo = blas.Upper
+			}
+			t = &mat.TriBandDense{}
+			t.SetRawTriBand(blas64.TriangularBand{N: n, K: k, Stride: k + 1 + extra, Uplo: uplo, Diag: blas.NonUnit, Data: back})
+		}
 		for i := 0; i < n; i++ {
 			for j := 0; j < n; j++ {
 				if (upper && j >= i && j-i <= k) || (!upper && i >= j && i-j <= k) {
@@ -562,7 +628,11 @@ func buildTriBand(upper bool, kf func(n int) int) func(M matrix) *operand {
 				}
 			}
 		}
-		return (&operand{m: t, val: M, bufs: [][]float64{back}}).seal()
+		var m mat.Matrix = t
+		if raw {
+			m = rawTriBand{t}
+		}
+		return (&operand{m: m, val: M, bufs: [][]float64{back}}).seal()
 	}
 }
 
@@ -601,6 +671,12 @@ func buildTridiag(M matrix) *operand {
 		}
 	}
 	return (&operand{m: mat.NewTridiag(n, dl, d, du), val: M, bufs: [][]float64{dl, d, du}}).seal()
+}
+
+func buildRawTridiag(M matrix) *operand {
+	o := buildTridiag(M)
+	o.m = rawTridiag{o.m.(*mat.Tridiag)}
+	return o.seal()
 }
 
 func buildVec(how string) func(M matrix) *operand {
@@ -886,6 +962,10 @@ func init() {
 	sb1 := core(addKind(&kind{name: "SymBand(1)", shape: symBandShape(k1), build: buildSymBand(k1)}))
 	addKind(&kind{name: "SymBand(full)", shape: symBandShape(kFull), build: buildSymBand(kFull)})
 	addKind(wrapped("Transpose{SymBand(1)}", sb1, wTranspose))
+	// band storage with Stride > K+1 (a window of a wider band buffer) and user types exposing only the Raw method
+	addKind(&kind{name: "SymBandStride(1)", shape: symBandShape(k1), build: buildSymBandX(k1, 2, false)})
+	addKind(&kind{name: "SymBandStride(full)", shape: symBandShape(kFull), build: buildSymBandX(kFull, 1, false)})
+	addKind(&kind{name: "rawSymBand(1)", shape: symBandShape(k1), build: buildSymBandX(k1, 2, true)})
 	slow(addKind(wrapped("TransposeBand{SymBand(1)}", sb1, wTransposeBand)))
 
 	// triangular band
@@ -895,6 +975,16 @@ func init() {
 	tbL2 := addKind(&kind{name: "TriBandL(2)", shape: triBandShape(false, k2), build: buildTriBand(false, k2)})
 	slow(addKind(&kind{name: "TriBandU(0)", shape: triBandShape(true, k0), build: buildTriBand(true, k0)}))
 	core(addKind(wrapped("T(TriBandU(1))", tbU1, wT)))
+	tbUS := addKind(&kind{name: "TriBandUStride(1)", shape: triBandShape(true, k1), build: buildTriBandX(true, k1, 2, false)})
+	tbLS := addKind(&kind{name: "TriBandLStride(1)", shape: triBandShape(false, k1), build: buildTriBandX(false, k1, 2, false)})
+	addKind(&kind{name: "TriBandLStride(2)", shape: triBandShape(false, k2), build: buildTriBandX(false, k2, 1, false)})
+	slow(addKind(&kind{name: "TriBandUStride(full)", shape: triBandShape(true, kFull), build: buildTriBandX(true, kFull, 3, false)}))
+	addKind(wrapped("T(TriBandLStride(1))", tbLS, wT))
+	addKind(wrapped("TTriBand(TriBandUStride(1))", tbUS, wTTriBand))
+	rawTBL := addKind(&kind{name: "rawTriBandL(1)", shape: triBandShape(false, k1), build: buildTriBandX(false, k1, 2, true)})
+	rawTBU := addKind(&kind{name: "rawTriBandU(2)", shape: triBandShape(true, k2), build: buildTriBandX(true, k2, 1, true)})
+	addKind(wrapped("T(rawTriBandL(1))", rawTBL, wT))
+	slow(addKind(wrapped("TTriBand(rawTriBandU(2))", rawTBU, wTTriBand)))
 	addKind(wrapped("T(TriBandL(1))", tbL1, wT))
 	addKind(wrapped("TTri(TriBandU(1))", tbU1, wTTri))
 	addKind(wrapped("TBand(TriBandL(1))", tbL1, wTBand))
@@ -915,6 +1005,8 @@ func init() {
 	tridiag := core(addKind(&kind{name: "Tridiag", shape: stSquare(func(n int) *structure { return stBand(n, n, min(1, n-1), min(1, n-1)) }), build: buildTridiag}))
 	core(addKind(wrapped("T(Tridiag)", tridiag, wT)))
 	addKind(wrapped("TBand(Tridiag)", tridiag, wTBand))
+	rawTd := addKind(&kind{name: "rawTridiag", shape: tridiag.shape, build: buildRawTridiag})
+	addKind(wrapped("T(rawTridiag)", rawTd, wT))
 
 	// factorizations
 	addKind(&kind{name: "Cholesky", shape: stSquare(stSym), gen: genCholesky(kFull), build: buildCholesky})
